@@ -193,7 +193,9 @@ func vhEnc(isClient bool) {
 // configuration and arbitrary client bitmasks.
 //
 //verif:unwind 6
-func VH_C03_ServerAuth() {
+func VH_C03_ServerAuth() { vhServerAuth(false) }
+
+func vhServerAuth(rounds bool) {
 	st := stream.NewStream(&vhConn{})
 	io_ := &vhIO{st: st}
 	defer vhInstall(io_)()
@@ -215,23 +217,33 @@ func VH_C03_ServerAuth() {
 	a := &Authenticator{config: cfg, stream: st}
 	neg := &SecurityNegotiation{Command: commands.DC_AUTHENTICATE, ClientConfig: cli, ServerConfig: cfg, IsClient: false}
 	round := 0
+	var asked []int
 	io_.peer = func(k int) []vhItem {
 		if k >= len(vhEOFNames) || vBool(vhEOFNames[k]) || round >= vhRounds() {
 			return nil
 		}
 		r := vInt(vhBMNames[round])
 		round++
+		asked = append(asked, r)
 		return []vhItem{{kind: vkInt, i: r}}
 	}
 	if a.negotiateSecurity(neg) != nil {
 		vCover("negotiation-fails")
 		return
 	}
-	if a.handleServerAuthentication(vhCtx, neg) != nil {
+	err := a.handleServerAuthentication(vhCtx, neg)
+	if err != nil {
 		vCover("authentication-phase-fails")
+	} else {
+		vCover("authentication-phase-succeeds")
+	}
+	if rounds {
+		vhCheckServerRounds(cfg, io_, asked, err)
 		return
 	}
-	vCover("authentication-phase-succeeds")
+	if err != nil {
+		return
+	}
 	method, ran := vhRanOK()
 	vTag("ran", vhB2I(ran))
 	vAssert(vImplies(cfg.Authentication == SecurityRequired, ran), "required-authentication-really-ran")
